@@ -820,9 +820,21 @@ fn exec_inner<P: TimeZoneProvider>(op: &Op, mode: Mode<'_, P>) -> Outcome {
                 Ok(d) => d,
                 Err(e) => return out::<()>(Err(e)),
             };
-            let rel = match zdt(&op.zone, op.ns, op.cal) {
-                Ok(z) => Some(RelativeTo::ZonedDateTime(z)),
-                Err(e) => return out::<()>(Err(e)),
+            // relativeTo: mostly a zoned date-time (the case that needs the
+            // provider), sometimes a plain date, sometimes none
+            let rel = match Sel::new(op.sel, 7).below(20) {
+                0 | 1 | 2 => None,
+                3..=7 => {
+                    let (y, mo, d, ..) = civil(op.ns);
+                    match PlainDate::try_new(y, mo, d, cal(op.cal)) {
+                        Ok(pd) => Some(RelativeTo::PlainDate(pd)),
+                        Err(e) => return out::<()>(Err(e)),
+                    }
+                }
+                _ => match zdt(&op.zone, op.ns, op.cal) {
+                    Ok(z) => Some(RelativeTo::ZonedDateTime(z)),
+                    Err(e) => return out::<()>(Err(e)),
+                },
             };
             match k {
                 "duration.round" => {
